@@ -1312,43 +1312,55 @@ class Interp:
         self.unsupported(e, "lambda")
 
     def e_ListComp(self, e, st):
-        if len(e.generators) != 1:
-            self.unsupported(e, "nested comprehension")
-        g = e.generators[0]
+        """[elt for t1 in it1 if c1 ... for t2 in it2 ...] over iterables of known (finite) shape: the generators are
+        unrolled in order, item by item, exactly as the nested loops they abbreviate."""
+        opaque = []
 
-        def go(it, s):
-            items = self.iter_items(it, s, e)
-            if items is None:
-                return self.val(s, OpaqueV("listcomp"))
-            outs = [Out("val", s, [])]
-            saved = {}
-            for item in items:
-                def step(acc, s2, item=item):
-                    self.assign_target(g.target, item, s2, e)
-                    conds = [Out("val", s2, True)]
-                    res = []
-                    if g.ifs:
-                        def chk(_, s3):
-                            out3 = []
-                            for o in self.eval(g.ifs[0], s3):
-                                if o.kind != "val":
-                                    out3.append(o)
-                                    continue
-                                for b, s4 in self.branch(o.value, o.st, g.ifs[0]):
-                                    out3.append(Out("val", s4, b))
-                            return out3
-                        conds = self.bind(conds, chk)
-                    for c in conds:
-                        if c.kind != "val":
-                            res.append(c)
-                        elif c.value:
-                            res.extend(self.bind(self.eval(e.elt, c.st), lambda v, s5: [Out("val", s5, acc + [v])]))
-                        else:
-                            res.append(Out("val", c.st, acc))
-                    return res
-                outs = self.bind(outs, step)
-            return self.bind(outs, lambda acc, s2: self.val(s2, s2.new_list(acc)))
-        return self.bind(self.eval(g.iter, st), go)
+        def run(gens, s, acc):
+            # -> list[Out('val', state, acc_list)] (or non-val outs)
+            if not gens:
+                return self.bind(self.eval(e.elt, s), lambda v, s5: [Out("val", s5, acc + [v])])
+            g = gens[0]
+
+            def with_iter(it, s1):
+                items = self.iter_items(it, s1, e)
+                if items is None:
+                    opaque.append(True)
+                    return [Out("val", s1, acc)]
+                outs = [Out("val", s1, acc)]
+                for item in items:
+                    def step(acc2, s2, item=item):
+                        self.assign_target(g.target, item, s2, e)
+                        conds = [Out("val", s2, True)]
+                        for test in g.ifs:
+                            def chk(ok, s3, test=test):
+                                if not ok:
+                                    return [Out("val", s3, False)]
+                                out3 = []
+                                for o in self.eval(test, s3):
+                                    if o.kind != "val":
+                                        out3.append(o)
+                                        continue
+                                    for b, s4 in self.branch(o.value, o.st, test):
+                                        out3.append(Out("val", s4, b))
+                                return out3
+                            conds = self.bind(conds, chk)
+                        res = []
+                        for c in conds:
+                            if c.kind != "val":
+                                res.append(c)
+                            elif c.value:
+                                res.extend(run(gens[1:], c.st, acc2))
+                            else:
+                                res.append(Out("val", c.st, acc2))
+                        return res
+                    outs = self.bind(outs, step)
+                return outs
+            return self.bind(self.eval(g.iter, s), with_iter)
+        outs = run(list(e.generators), st, [])
+        if opaque:
+            return self.bind(outs, lambda acc, s2: self.val(s2, OpaqueV("listcomp")))
+        return self.bind(outs, lambda acc, s2: self.val(s2, s2.new_list(acc)))
 
     e_GeneratorExp = e_ListComp
 
